@@ -7,12 +7,21 @@
 //!   per alloc/dealloc on a shard chosen per thread), so that engines which do not care pay a few
 //!   nanoseconds per allocation and there is no contended cache line.
 //!
-//! The allocator never allocates itself and never panics (thread-locals are const-initialised
-//! and have no destructor; `try_with` guards thread teardown).
+//! * per-tag "largest single allocation" monitor: one relaxed load per allocation on a tagged
+//!   thread keeps the largest block requested so far (`tag_max_single`); a block larger than the
+//!   tag's threshold (`set_tag_big_threshold`, disabled by default) plus twice the tag's live
+//!   heap at that moment (a container holding accumulated state may double) is a rare event and
+//!   is recorded together with an (unresolved) backtrace, so that the engine can later tell
+//!   whether the request was made from rustrtc code or by the harness itself.
+//!
+//! The allocator never panics (thread-locals are const-initialised and have no destructor;
+//! `try_with` guards thread teardown). The only path on which it allocates is the rare
+//! "block above threshold" event, which is protected by a thread-local re-entrancy guard.
 
 use std::alloc::{GlobalAlloc, Layout, System};
 use std::cell::Cell;
 use std::sync::atomic::{AtomicI64, AtomicUsize, Ordering};
+use std::sync::Mutex;
 
 pub struct CountingAlloc;
 
@@ -31,7 +40,45 @@ static NEXT_SHARD: AtomicUsize = AtomicUsize::new(0);
 pub const NTAGS: usize = 128;
 static TAG_NET: [Shard; NTAGS] = [SHARD_INIT; NTAGS];
 
+/// Largest-single-allocation monitor of one tag.
+#[repr(align(128))]
+struct TagMon {
+    /// largest block requested by a thread carrying the tag since `reset_tag`
+    max: AtomicUsize,
+    /// a block larger than this is recorded as a `BigAlloc` (usize::MAX = monitor off)
+    threshold: AtomicUsize,
+    /// number of blocks above the bound since `reset_tag` (recorded or not)
+    events: AtomicUsize,
+    /// value of the tag's net heap that counts as "nothing held yet" (`set_tag_heap_base`)
+    base: AtomicI64,
+}
+#[allow(clippy::declare_interior_mutable_const)]
+const TAGMON_INIT: TagMon = TagMon {
+    max: AtomicUsize::new(0),
+    threshold: AtomicUsize::new(usize::MAX),
+    events: AtomicUsize::new(0),
+    base: AtomicI64::new(0),
+};
+static TAG_MON: [TagMon; NTAGS] = [TAGMON_INIT; NTAGS];
+
+/// At most this many above-threshold blocks are recorded with a backtrace per tag.
+pub const MAX_BIG_EVENTS_PER_TAG: usize = 24;
+
+/// One block above the tag's bound (`threshold` = static threshold + 2 × live heap of the tag
+/// when the block was requested, `live_before` = that live heap). The backtrace is captured unresolved (cheap); resolve
+/// it (`to_string`) on an *untagged* thread.
+pub struct BigAlloc {
+    pub tag: usize,
+    pub size: usize,
+    pub threshold: usize,
+    pub live_before: usize,
+    pub thread: String,
+    pub backtrace: std::backtrace::Backtrace,
+}
+static BIG_ALLOCS: Mutex<Vec<BigAlloc>> = Mutex::new(Vec::new());
+
 thread_local! {
+    static T_IN_BIG: Cell<bool> = const { Cell::new(false) };
     static T_TAG: Cell<usize> = const { Cell::new(0) };
     static T_ALLOCATED: Cell<u64> = const { Cell::new(0) };
     static T_SHARD: Cell<usize> = const { Cell::new(usize::MAX) };
@@ -61,6 +108,59 @@ fn note_alloc(n: usize) {
     }
 }
 
+/// `size` = size of the block requested (for a growing realloc: the new size, `prev` = the old).
+#[inline]
+fn note_block(size: usize, prev: usize) {
+    let t = T_TAG.try_with(|c| c.get()).unwrap_or(0);
+    if t == 0 {
+        return;
+    }
+    let m = &TAG_MON[t % NTAGS];
+    if size > m.max.load(Ordering::Relaxed) {
+        m.max.fetch_max(size, Ordering::Relaxed);
+    }
+    let thr = m.threshold.load(Ordering::Relaxed);
+    if size > thr {
+        big_block(t % NTAGS, size, prev, thr);
+    }
+}
+
+#[cold]
+#[inline(never)]
+fn big_block(tag: usize, size: usize, prev: usize, threshold: usize) {
+    // what the tag held before this request (the net counter already contains the new block
+    // in place of the old one): an amortised container growth asks for about twice of it
+    let net = TAG_NET[tag].0.load(Ordering::Relaxed) - TAG_MON[tag].base.load(Ordering::Relaxed);
+    let live_before = (net - size as i64 + prev as i64).max(0) as usize;
+    let threshold = threshold.saturating_add(live_before.saturating_mul(2));
+    if size <= threshold {
+        return;
+    }
+    // re-entrancy guard: everything below allocates (small blocks) through this allocator
+    let entered = T_IN_BIG
+        .try_with(|g| {
+            if g.get() {
+                false
+            } else {
+                g.set(true);
+                true
+            }
+        })
+        .unwrap_or(false);
+    if !entered {
+        return;
+    }
+    let k = TAG_MON[tag].events.fetch_add(1, Ordering::Relaxed);
+    if k < MAX_BIG_EVENTS_PER_TAG {
+        let thread = std::thread::current().name().unwrap_or("?").to_string();
+        let backtrace = std::backtrace::Backtrace::force_capture();
+        if let Ok(mut g) = BIG_ALLOCS.lock() {
+            g.push(BigAlloc { tag, size, threshold, live_before, thread, backtrace });
+        }
+    }
+    let _ = T_IN_BIG.try_with(|g| g.set(false));
+}
+
 #[inline]
 fn note_free(n: usize) {
     LIVE[shard()].0.fetch_sub(n as i64, Ordering::Relaxed);
@@ -75,6 +175,7 @@ unsafe impl GlobalAlloc for CountingAlloc {
         let p = unsafe { System.alloc(layout) };
         if !p.is_null() {
             note_alloc(layout.size());
+            note_block(layout.size(), 0);
         }
         p
     }
@@ -82,6 +183,7 @@ unsafe impl GlobalAlloc for CountingAlloc {
         let p = unsafe { System.alloc_zeroed(layout) };
         if !p.is_null() {
             note_alloc(layout.size());
+            note_block(layout.size(), 0);
         }
         p
     }
@@ -95,6 +197,7 @@ unsafe impl GlobalAlloc for CountingAlloc {
             // only growth counts as "allocated" (a shrinking realloc requests nothing new)
             if new_size > layout.size() {
                 note_alloc(new_size - layout.size());
+                note_block(new_size, layout.size());
             } else {
                 note_free(layout.size() - new_size);
             }
@@ -129,4 +232,62 @@ pub fn tag_net_bytes(tag: usize) -> i64 {
 
 pub fn reset_tag(tag: usize) {
     TAG_NET[tag % NTAGS].0.store(0, Ordering::Relaxed);
+    let m = &TAG_MON[tag % NTAGS];
+    m.threshold.store(usize::MAX, Ordering::Relaxed);
+    m.max.store(0, Ordering::Relaxed);
+    m.events.store(0, Ordering::Relaxed);
+    m.base.store(0, Ordering::Relaxed);
+    let _ = take_big_allocs(tag);
+}
+
+/// Largest single block requested by threads carrying `tag` since `reset_tag` (harness
+/// allocations on those threads included).
+pub fn tag_max_single(tag: usize) -> usize {
+    TAG_MON[tag % NTAGS].max.load(Ordering::Relaxed)
+}
+
+/// Record (with a backtrace) every block larger than `bytes` requested by a thread carrying
+/// `tag`; `usize::MAX` switches the recording off.
+pub fn set_tag_big_threshold(tag: usize, bytes: usize) {
+    TAG_MON[tag % NTAGS].threshold.store(bytes, Ordering::Relaxed);
+}
+
+/// The value of `tag_net_bytes(tag)` from which the tag's live heap is counted by the
+/// large-block monitor (an engine re-baselines after its own set-up).
+pub fn set_tag_heap_base(tag: usize, base: i64) {
+    TAG_MON[tag % NTAGS].base.store(base, Ordering::Relaxed);
+}
+
+/// Run `f` with the current thread untagged: what an engine's own tooling allocates (for
+/// example a rustrtc object it uses as a *sender*) is not the monitored endpoint's memory.
+pub fn untagged<T>(f: impl FnOnce() -> T) -> T {
+    let t = thread_tag();
+    set_thread_tag(0);
+    let r = f();
+    set_thread_tag(t);
+    r
+}
+
+/// Number of blocks above the threshold since `reset_tag` (may exceed what was recorded).
+pub fn tag_big_events(tag: usize) -> usize {
+    TAG_MON[tag % NTAGS].events.load(Ordering::Relaxed)
+}
+
+/// Remove and return the recorded above-threshold blocks of `tag`.
+pub fn take_big_allocs(tag: usize) -> Vec<BigAlloc> {
+    // the vector operations below allocate: keep them out of the monitor
+    let prev = T_IN_BIG.try_with(|g| g.replace(true)).unwrap_or(true);
+    let mut out = Vec::new();
+    if let Ok(mut g) = BIG_ALLOCS.lock() {
+        let mut i = 0;
+        while i < g.len() {
+            if g[i].tag == tag % NTAGS {
+                out.push(g.swap_remove(i));
+            } else {
+                i += 1;
+            }
+        }
+    }
+    let _ = T_IN_BIG.try_with(|g| g.set(prev));
+    out
 }
